@@ -14,6 +14,7 @@ def _extra(run):
 
 SPEC = {
     "id": "C09",
+    "abort_is_violation": True,  # the property is totality: a process abort / hang of the real code on a case is a violation
     "level": "other",
     "lean_modules": ["PallasVerif.Props.C09"],
     "required_theorems": ["panic_sites_all_audited", "all_anchored_files_scanned", "peeraddress_bits_fit_u128",
